@@ -447,6 +447,15 @@ def _os_queries(seed, tier, which, total, sl, nsl):
         while n * (1 - p) > 5000:
             p = PGRID[min(PGRID.index(p) + 1, len(PGRID) - 1)] if p in PGRID else 0.999
         rr = int(r.integers(1, 51))
+        if i % 13 == 5:
+            # extreme confidence with large samples and low ranks (1 - c down to 1e-9,
+            # also its mirror image): closed-form inverses of the binomial tail lose
+            # their accuracy here long before the defining sum does
+            c = [0.999999, 0.9999999, 1 - 1e-9, 1e-6, 1e-9, 0.99999][int(r.integers(6))]
+            n = [20000, 100000, 1000000, 50000][int(r.integers(4))]
+            rr = int(r.integers(1, 13))
+            while n * (1 - p) > 5000:
+                p = PGRID[min(PGRID.index(p) + 1, len(PGRID) - 1)] if p in PGRID else 0.9999
         out.append((p, c, n, rr))
     return out[sl::nsl]
 
@@ -589,6 +598,20 @@ def _run_os(sh, params):
             pg = float(stats.order_stats("p", c=c, n=n, r=r))
         except Exception as e:
             sh.violation("exception:order_stats-p", case, {"exc": repr(e)}, tags)
+            continue
+        if pg in (0.0, 1.0):
+            # an end point is within the root finder's documented resolution (2e-12 in p)
+            # iff the confidence equation is already met 8e-12 inside the interval
+            from fractions import Fraction
+            pin = Fraction(8, 10 ** 12)
+            cin = S.conf_value(r, n, 1 - pin if pg == 1.0 else pin)
+            sh.count("mon:order-p-endpoint")
+            ok_end = cin is not None and ((cin >= mp.mpf(c)) if pg == 1.0
+                                          else (cin <= mp.mpf(c)))
+            if not ok_end:
+                sh.violation("order-p-range", case, {"p": pg, "conf 8e-12 inside":
+                                                     None if cin is None else float(cin)},
+                             tags)
             continue
         if not 0 < pg < 1:
             sh.violation("order-p-range", case, {"p": pg}, tags)
